@@ -296,9 +296,9 @@ class KernelSTDP(IndependentCellTrainer):
             cell.updater.weight = (
                 state.batchreduce(dpost.clamp_min(0.0).nansum(dim=-1), 0)
                 + state.batchreduce(dpre.clamp_min(0.0).nansum(dim=-1), 0),
-                -(
-                    state.batchreduce(dpost.clamp_max(0.0).nansum(dim=-1), 0)
-                    + state.batchreduce(dpre.clamp_max(0.0).nansum(dim=-1), 0)
+                (
+                    state.batchreduce(-dpost.clamp_max(0.0).nansum(dim=-1), 0)
+                    + state.batchreduce(-dpre.clamp_max(0.0).nansum(dim=-1), 0)
                 ),
             )
 
@@ -564,9 +564,9 @@ class DelayAdjustedKernelSTDP(IndependentCellTrainer):
             cell.updater.weight = (
                 state.batchreduce(dpost.clamp_min(0.0).nansum(dim=-1), 0)
                 + state.batchreduce(dpre.clamp_min(0.0).nansum(dim=-1), 0),
-                -(
-                    state.batchreduce(dpost.clamp_max(0.0).nansum(dim=-1), 0)
-                    + state.batchreduce(dpre.clamp_max(0.0).nansum(dim=-1), 0)
+                (
+                    state.batchreduce(-dpost.clamp_max(0.0).nansum(dim=-1), 0)
+                    + state.batchreduce(-dpre.clamp_max(0.0).nansum(dim=-1), 0)
                 ),
             )
 
@@ -832,8 +832,8 @@ class DelayAdjustedKernelSTDPD(IndependentCellTrainer):
             cell.updater.delay = (
                 state.batchreduce(dpost.clamp_min(0.0).nansum(dim=-1), 0)
                 + state.batchreduce(dpre.clamp_min(0.0).nansum(dim=-1), 0),
-                -(
-                    state.batchreduce(dpost.clamp_max(0.0).nansum(dim=-1), 0)
-                    + state.batchreduce(dpre.clamp_max(0.0).nansum(dim=-1), 0)
+                (
+                    state.batchreduce(-dpost.clamp_max(0.0).nansum(dim=-1), 0)
+                    + state.batchreduce(-dpre.clamp_max(0.0).nansum(dim=-1), 0)
                 ),
             )
